@@ -20,13 +20,14 @@ from fractions import Fraction
 import numpy as np
 
 import vlib
+from harness import c13x
 
 os.environ.setdefault('TQDM_DISABLE', '1')
 if vlib.REPO not in sys.path[:1]:
     sys.path.insert(0, vlib.REPO)
 
-GEN = ['Islands', 'Polarity']
-EXTRA_TARGETS = ['Refuted/C13_mixed_island.vo']
+GEN = ['Islands', 'Polarity'] + c13x.GEN_EXTRA
+EXTRA_TARGETS = ['Refuted/C13_mixed_island.vo'] + c13x.EXTRA_TARGETS
 LEVEL = 'proof'
 TRUSTED = [
     'Coq 8.16.1 kernel + vm_compute; all C13 theorems are axiom-free (QArith, lra over Q)',
@@ -63,6 +64,8 @@ ASSUMPTIONS = [
     'finder comparison tolerances: fluxes 1e-6 relative, positions 1e-6 pixel, shapes 1e-6 relative, errors 1e-5 relative, '
     'flags equal',
 ]
+TRUSTED += c13x.TRUSTED_EXTRA
+ASSUMPTIONS += c13x.ASSUMPTIONS_EXTRA
 IMPORTS = ("From Coq Require Import ZArith QArith List Bool.\nFrom Aegean Require Import Lib.QBase Lib.Ext Gen.Polarity "
            "Model.IslandModel Model.Polarity.\nImport ListNotations.\nOpen Scope Z_scope.\n")
 FINDING_TAG = 'mixed-sign island'
@@ -880,6 +883,7 @@ def run(ctx, model_ok=True):
     # ---- command line tie: the argument glue of AegeanTools/CLI vs the library call that --help promises
     from harness import cli_cases
     cli_cases.hook(ctx, cli_cases.aegean_polarity_cli, 'aegean --negative/--nopositive')
+    c13x.run_extra(ctx, model_ok)
 
 
 def drop_source(spec, k):
@@ -951,6 +955,9 @@ def shrink_island(case):
 
 def search(ctx):
     rng = ctx.rng
+    extra = c13x.search_extra(ctx)
+    if extra:
+        return extra
     t0 = time.time()
     while time.time() - t0 < 40:
         case = gen_island(rng, rng.choice(['positive', 'negative', 'tiny']))
@@ -990,6 +997,8 @@ def replay(ctx, obj):
     if fi.get('kind') == 'cli':
         from harness import cli_cases
         return cli_cases.replay_cli(ctx, fi)
+    if fi.get('kind') in ('glue', 'e2e'):
+        return c13x.replay_extra(ctx, fi)
     if fi['kind'] == 'estimate':
         msg = mirror_problem(fi['case'])
         print('island:', fi['case']['data'])
